@@ -112,6 +112,21 @@ func admitOps() []admitOp {
 			b.Parents[0] = "0X" + strings.Repeat("AB", 32)
 			return true
 		}},
+		admitOp{name: "selfparent=other-spelling-of-the-right-hash", f: func(b *hg.EventBody, cx *admitCtx) bool {
+			// hashes are exact-match keys of the DAG: the same hex digits in lower case name no event
+			if b.Parents[0] == "" || strings.ToLower(b.Parents[0]) == b.Parents[0] {
+				return false
+			}
+			b.Parents[0] = strings.ToLower(b.Parents[0])
+			return true
+		}},
+		admitOp{name: "otherparent=other-spelling-of-the-right-hash", f: func(b *hg.EventBody, cx *admitCtx) bool {
+			if b.Parents[1] == "" || strings.ToLower(b.Parents[1]) == b.Parents[1] {
+				return false
+			}
+			b.Parents[1] = strings.ToLower(b.Parents[1])
+			return true
+		}},
 		admitOp{name: "selfparent=malformed", f: func(b *hg.EventBody, cx *admitCtx) bool { b.Parents[0] = "zz"; return true }},
 		admitOp{name: "otherparent=none", f: func(b *hg.EventBody, cx *admitCtx) bool {
 			if b.Parents[1] == "" {
